@@ -48,5 +48,5 @@ void run_prelude(void)
         if (mantis_parallel_ecb_init(&p3)) { mantis_parallel_ecb_set_key(&p3, key, 16, 6, MANTIS_ENCRYPT); mantis_parallel_ecb_crypt(out, buf, buf + 80, 72, &p3); mantis_parallel_ecb_cleanup(&p3); }
         if (skinny128_ctr_init(&c1)) { skinny128_ctr_set_key(&c1, key, 32); skinny128_ctr_encrypt(out, buf, 70, &c1); skinny128_ctr_cleanup(&c1); }
     }
-    note_num("prelude", (double)g_prelude);
+    note_num(g_prelude == 0 ? "processes_started_cold" : (g_prelude == 1 ? "processes_started_with_tweakable_family_prelude" : "processes_started_with_plain_family_prelude"), 1);
 }
